@@ -103,6 +103,35 @@ def handleReq (fixed : Bool) (os : List Outcome) : Result := loop fixed 0 os {}
 /-- the code as it is in /repo now (F8 repaired) -/
 def run (os : List Outcome) : Result := handleReq true os
 
+/-! ### what the endpoint did vs what `f` reports (round 5, review E #2)
+
+`Outcome` is what `req.f` RETURNS at an endpoint.  Whether the endpoint TOOK the transaction (processed
+`eth_sendRawTransaction` and accepted it) is a different fact: they differ exactly when the connection fails after the
+send was processed and before the reply arrived — `f` reports a transport error (class `otherErr`: the loop goes on to
+the next endpoint, which signs and sends the call AGAIN with ITS pending nonce), the endpoint has the transaction. -/
+
+/-- one endpoint during one request: what `f` reports, and whether the endpoint took the transaction -/
+structure EpRun where
+  outcome : Outcome
+  took : Bool
+  deriving DecidableEq, Repr
+
+/-- the endpoint accepted the transaction, the reply was lost: `f` returns a transport error -/
+def acceptedReplyLost : EpRun := ⟨.otherErr, true⟩
+
+/-- which (report, fact) pairs can occur: an accept was taken; an endpoint that refused (revert, insufficient funds),
+was never reached (nonce lookup failed, connection closed before the write, context done) took nothing; after any
+other error the transaction may or may not have been taken -/
+def EpRun.possible (e : EpRun) : Bool :=
+  match e.outcome with
+  | .accept => e.took
+  | .otherErr => true
+  | _ => !e.took
+
+/-- the endpoints that took a transaction of this ONE request, in order -/
+def takenBy (fixed : Bool) (eps : List EpRun) : List Nat :=
+  (handleReq fixed (eps.map (·.outcome))).contacted.filter (fun i => match eps[i]? with | some e => e.took | none => false)
+
 /-! ### the adaptor around it: `isConnecting(true)` pre-check, persistent endpoint contexts -/
 
 inductive CallErr where
